@@ -284,7 +284,7 @@ package proxy
 //@   loop 3 invariant forallT(k, string, !touched(k) ==> kept(k)) && forallT(k, string, has(rules, k) == old(has(rules, k)) && rules[k] == old(rules[k]))
 //@   loop 4 invariant forallT(k, string, !touched(k) ==> kept(k)) && forallT(k, string, has(rules, k) == old(has(rules, k)) && rules[k] == old(rules[k])) && has(replacements, ruleField)
 
-//@ unit upstream_select frames=on props=C05 filter=`proxy\.staticUpstream\)\.Select$`
+//@ unit upstream_select frames=on props=C05,C11 filter=`proxy\.staticUpstream\)\.Select$`
 //@ func (*UpstreamHost).Available
 //@   pure reads UpstreamHost.Unhealthy, UpstreamHost.Fails, UpstreamHost.Conns, UpstreamHost.MaxConns, UpstreamHost.CheckDown
 //@   requires uh != nil
